@@ -105,31 +105,22 @@ func (r *repository) UpdateRuleSet(srcID string, rules []rule.Rule) error {
 	// find all rules for the given src id
 	applicable := slicex.Filter(r.knownRules, func(r rule.Rule) bool { return r.SrcID() == srcID })
 
-	// find new rules, as well as those, which have been changed.
-	toBeAdded := slicex.Filter(rules, func(newRule rule.Rule) bool {
-		ruleIsNew := !slices.ContainsFunc(applicable, func(existingRule rule.Rule) bool {
-			return existingRule.SameAs(newRule)
-		})
+	// if nothing changed (same rules, same definitions, same order), there is nothing to do
+	unchanged := len(applicable) == len(rules)
+	for idx := 0; unchanged && idx < len(rules); idx++ {
+		unchanged = applicable[idx].SameAs(rules[idx]) && applicable[idx].EqualTo(rules[idx])
+	}
 
-		ruleChanged := slices.ContainsFunc(applicable, func(existingRule rule.Rule) bool {
-			return existingRule.SameAs(newRule) && !existingRule.EqualTo(newRule)
-		})
+	if unchanged {
+		return nil
+	}
 
-		return ruleIsNew || ruleChanged
-	})
-
-	// find deleted rules, as well as those, which have been changed.
-	toBeDeleted := slicex.Filter(applicable, func(existingRule rule.Rule) bool {
-		ruleGone := !slices.ContainsFunc(rules, func(newRule rule.Rule) bool {
-			return newRule.SameAs(existingRule)
-		})
-
-		ruleChanged := slices.ContainsFunc(rules, func(newRule rule.Rule) bool {
-			return newRule.SameAs(existingRule) && !newRule.EqualTo(existingRule)
-		})
-
-		return ruleGone || ruleChanged
-	})
+	// otherwise the rules of the old version are replaced by the rules of the new one. Replacing
+	// only the new and changed rules would leave the unchanged ones in front of them in the tree
+	// nodes shared by rules with the same path expression, although the order of the rules
+	// within the rule set defines which of them is used.
+	toBeDeleted := applicable
+	toBeAdded := rules
 
 	tmp := r.index.Clone()
 
